@@ -9,6 +9,7 @@ generated, shrunk, stored and replayed without a PRNG.  Tagged forms:
   {"$bytes": hex} {"$bytearray": hex} {"$tuple": [...]}
   {"$setup": {"value":..,"units":..}}   dliswriter.AttrSetup
   {"$dict": {...}}                plain dict (values decoded)
+  {..., "$share": key}            any of the above: the SAME object is handed over wherever the key recurs (caller reuses an object)
   {"$npscalar": [dtype, value]}   numpy scalar
   {"$dtype": "float32"}           numpy scalar type     {"$npdtype": "<f4"}  numpy dtype instance
   {"$arr": recipe}                numpy array, see make_array
@@ -106,6 +107,7 @@ class Codec:
     def __init__(self, objs, registry=None):
         self.objs = objs
         self.registry = registry
+        self.shared = {}          # '$share' key -> the one object the simulated caller passes again and again
 
     def dec(self, v):
         if isinstance(v, list):
@@ -116,6 +118,12 @@ class Codec:
             return sys.intern(v)
         if not isinstance(v, dict):
             return v
+        if '$share' in v:
+            # the caller reuses ONE object (a dict, an AttrSetup) for several calls: decoded once, the same object afterwards
+            key = v['$share']
+            if key not in self.shared:
+                self.shared[key] = self.dec({k: x for k, x in v.items() if k != '$share'})
+            return self.shared[key]
         if '$ref' in v:
             return self.objs[v['$ref']]
         if '$dt' in v:
